@@ -6,6 +6,8 @@
      C01  at least one key was supplied and the layout metadata verifies under every supplied key
      C06  the layout's expiry is a well-formed UTC timestamp whose instant is not before the clock reading
      C18  the enforced layout is the signed one with the parameters substituted, and the dictionary is valid
+     C07  every root and intermediate CA entry of the enforced layout, and every intermediate handed over by the caller,
+          yielded a certificate (the pools the certificate functionaries are checked against are complete)
      C02  for every step of the enforced layout at least max(threshold, 1) DISTINCT functionaries are counted, each
           authorised for the step and validly signing a link loaded from a file named after the step
      C08  sublayouts among the counted evidence were resolved (recursively) into summary links
@@ -28,8 +30,8 @@ Lemma is_ok_unit (r : res unit) : is_ok r = true -> r = Ok tt.
 Proof. destruct r as [[]|c|p]; simpl; intros H; [reflexivity|discriminate|discriminate]. Qed.
 
 Theorem final_product_verification_sound :
-  forall now truths tc tcc cmds fuel w path d layout_env keys step_name params inter s w' tr,
-    verify_inst now truths tc tcc cmds (S fuel) w path d layout_env keys step_name params inter = (Ok s, w', tr) ->
+  forall now truths tc tcc pems cmds fuel w path d layout_env keys step_name params inter s w' tr,
+    verify_inst now truths tc tcc pems cmds (S fuel) w path d layout_env keys step_name params inter = (Ok s, w', tr) ->
     (* C01 *)
     keys <> [] /\ (forall id k, In (id, k) keys -> vsig_tbl truths layout_env k = true) /\
     exists layout0 layout loaded verified resolved reduced reduced_links imeta w2 tr2,
@@ -38,6 +40,8 @@ Theorem final_product_verification_sound :
       (exists t, wf_expiry_ns (l_expires layout0) t /\ now <= t) /\
       (* C18 *)
       substitute layout0 params = Ok layout /\ valid_dict params /\
+      (* C07 *)
+      certs_ok_tbl pems layout inter = true /\
       (* C02 *)
       load_all layout (ld_files d) = Ok loaded /\
       verify_thresholds (vsig_tbl truths) (tbl_get_cert tc) (cc_tbl tcc) layout loaded = Ok verified /\
@@ -45,7 +49,7 @@ Theorem final_product_verification_sound :
          exists ids, counted_ids (vsig_tbl truths) (tbl_get_cert tc) (cc_tbl tcc) layout st (step_links loaded (s_name st)) ids /\
                      zlen ids >= s_threshold st /\ (1 <= length ids)%nat) /\
       (* C08 *)
-      sub_steps world zero_key (verify_inst now truths tc tcc cmds fuel) layout path d inter verified w [EvLoadLinks path]
+      sub_steps world zero_key (verify_inst now truths tc tcc pems cmds fuel) layout path d inter verified w [EvLoadLinks path]
         = (Ok resolved, w2, tr2) /\
       (* C05 *)
       reduce_steps (l_steps layout) resolved [] = Ok reduced /\ env_links reduced = Ok reduced_links /\
@@ -63,7 +67,7 @@ Theorem final_product_verification_sound :
       (* C05 *)
       get_summary (fun _ => []) layout reduced step_name (match e_wrapper layout_env with DSSE => true | Legacy => false end) = Ok s.
 Proof.
-  intros now truths tc tcc cmds fuel w path d layout_env keys step_name params inter s w' tr H.
+  intros now truths tc tcc pems cmds fuel w path d layout_env keys step_name params inter s w' tr H.
   pose proof H as Hthr. apply C02_accept_implies_thresholds_met in Hthr.
   unfold verify_inst in H. apply verify_ok_inv in H.
   destruct H as [l0 l loaded verified resolved reduced rl imeta w2 tr2 Hs Hp He Hsu Hc Hl Ht Hss Hal Hred Hel Hr1 Hin Hr2 Hsum].
@@ -76,6 +80,7 @@ Proof.
   split; [apply verify_ok_wf; apply is_ok_unit; exact He|].
   split; [exact Hsu|].
   split; [apply (proj1 (substitute_ok_iff l0 params)); rewrite Hsu; reflexivity|].
+  split; [exact Hc|].
   split; [exact Hl|]. split; [exact Ht|].
   split.
   { intros st Hst. destruct Hthr as [l0' [l' [loaded' [Hp' [Hsu' [Hl' Hall']]]]]].
